@@ -34,7 +34,7 @@ def worker(pid, tier, seeds, n):
         def one(case):
             rows = result[str(bseed)]  # noqa: B023 - the test runs inside this iteration
             try:
-                run = engine.execute(case, focus=pid)
+                run = kernel.guarded_execute(engine, case, pid)
                 rows.append([case_digest(case), run.digest(), run.checks])
             except Violation as v:
                 rows.append([case_digest(case), "VIOLATION " + v.label, -1])
